@@ -540,7 +540,7 @@ def corpus_entries(tier, seed, kinds):
     if "curated" in kinds:
         ents += _corpus.curated()
     if "amb_chains" in kinds:
-        ents += _corpus.ambig_chain_family() + _corpus.depth_chain_family()
+        ents += _corpus.ambig_chain_family() + _corpus.depth_chain_family() + _corpus.untranslated_tails()
     if "loops" in kinds:
         ents += _corpus.loop_shapes() + _corpus.loop_repeats() + _corpus.access_after_unproductive()
     if "chains" in kinds:
